@@ -464,6 +464,7 @@ class StateProbe:
 
     def __init__(self, modules):
         self.slots = []       # (namespace dict-like owner, name)
+        self.containers = []  # module- or class-level dict/list/set: size is tracked
         self.singletons = []
         classes = set()
         for mod in modules:
@@ -472,6 +473,8 @@ class StateProbe:
                     continue
                 if isinstance(val, _SIMPLE):
                     self.slots.append((mod, name))
+                elif isinstance(val, (dict, list, set)):
+                    self.containers.append((mod, name))
                 elif inspect.isclass(val) and getattr(val, '__module__', '') == mod.__name__:
                     classes.add(val)
                 elif (not inspect.ismodule(val) and not inspect.isfunction(val)
@@ -479,14 +482,21 @@ class StateProbe:
                     self.singletons.append(val)
         for cls in classes:
             for name, val in list(vars(cls).items()):
-                if not name.startswith('__') and isinstance(val, _SIMPLE):
+                if name.startswith('__'):
+                    continue
+                if isinstance(val, _SIMPLE):
                     self.slots.append((cls, name))
+                elif isinstance(val, (dict, list, set)):
+                    self.containers.append((cls, name))
         self.classes = list(classes)
 
     def fingerprint(self):
         out = []
         for owner, name in self.slots:
             out.append(getattr(owner, name, None))
+        for owner, name in self.containers:
+            v = getattr(owner, name, None)
+            out.append(len(v) if isinstance(v, (dict, list, set)) else -1)
         for inst in self.singletons:
             d = getattr(inst, '__dict__', None)
             if d is None:
